@@ -115,17 +115,35 @@ def craft_inner(r, cm, comps, key, entries):
     return B.text_of_binary(cm, hdr + B.build(cm, comps).to_binary(len(hdr), key))
 
 
+
+def _handlers():
+    """the hang detector counts CPU time of this process (ITIMER_VIRTUAL, 5 s): a parser that loops burns CPU, a machine
+    that is merely busy does not; a generous wall-clock alarm (120 s) backs it up.  Returns the old SIGALRM handler."""
+    signal.signal(signal.SIGVTALRM, _alarm)
+    return signal.signal(signal.SIGALRM, _alarm)
+
+
+def _arm():
+    signal.setitimer(signal.ITIMER_VIRTUAL, 5.0)
+    signal.alarm(120)
+
+
+def _disarm():
+    signal.setitimer(signal.ITIMER_VIRTUAL, 0)
+    signal.alarm(0)
+
+
 def guarded(ctx, name, inp, f):
     """run an implementation call under a 5 s alarm; a hang is a C14 violation"""
-    old = signal.signal(signal.SIGALRM, _alarm)
-    signal.alarm(5)
+    old = _handlers()
+    _arm()
     try:
         return f()
     except Timeout:
-        ctx.fail("hang", {"entry": name, "input": inp[:4000]}, "no result within 5 s")
+        ctx.fail("hang", {"entry": name, "input": inp[:4000]}, "no result within 5 s of CPU time")
         return None
     finally:
-        signal.alarm(0)
+        _disarm()
         signal.signal(signal.SIGALRM, old)
 
 
@@ -316,16 +334,16 @@ def search(ctx):
         return C13.render_file(r, header, secs)
 
     snap0 = state_snapshot()
-    old = signal.signal(signal.SIGALRM, _alarm)
+    old = _handlers()
 
     def run(name, f, inp):
         ctx.case((name, inp))
-        signal.alarm(5)
+        _arm()
         try:
             f()
             ctx.dist[name + "->ok"] += 1
         except Timeout:
-            ctx.fail("hang", {"entry": name, "input": inp[:4000]}, "no result within 5 s")
+            ctx.fail("hang", {"entry": name, "input": inp[:4000]}, "no result within 5 s of CPU time")
         except Exception as e:   # noqa
             c = canon_exc(e)
             ctx.dist["%s->%s" % (name, c)] += 1
@@ -333,7 +351,7 @@ def search(ctx):
                 ctx.fail("unrelated-exception:%s:%s" % (name, c), {"entry": name, "input": inp[:4000]},
                          "%s: %s" % (type(e).__name__, e))
         finally:
-            signal.alarm(0)
+            _disarm()
         if state_snapshot() != snap0:
             ctx.fail("global-state-changed", {"entry": name, "input": inp[:4000]}, "")
 
